@@ -25,6 +25,7 @@ var damage = []string{
 	"(", ")", "[", "]", "{", "}", "\"", "${", "%{", "~}", "${~", "$${",
 	"<<EOT\n", "<<-EOT\n", "EOT", "\nEOT\n",
 	"for", "if", "in", "else", "endif", "endfor", "null",
+	"fi", "fr", "elif", "elsif", "endfi", "endfro", "ni", "nul", // misspelt keywords (close to two or more real ones)
 	"?", ":", "=>", "...", "::", ".", ",", "=", "==", "&&", "||", "!", "-", "*", "/", ".*", "[*]",
 	"#", "/*", "\\", "\n", "\r\n", "\xff", "\x00", "a", "1",
 }
